@@ -1,1 +1,9 @@
+import EoNVerif.Props.C08
 import EoNVerif.Model.InitCond
+/-!
+C06 — the conservation / sign-structure theorems about the right-hand-side models are stated and proved in
+`Props/C08.lean` (same file as the limit identities, one development about `Model/ODE.lean`):
+`ODE.sisHomMF_conserve`, `ODE.sisHetMF_conserve`, `ODE.sisSuperCompactPW_pairs`, `ODE.linear_invariant_of_step`,
+`ODE.sirHomMF_signs`, `ODE.sirHomPW_signs`, `ODE.sirCompactPW_signs`, `ODE.sirHetMF_signs`, `ODE.sirIndividual_signs`.
+The initial-condition model is `Model/InitCond.lean`.
+-/
